@@ -30,7 +30,10 @@ import (
 	"time"
 )
 
-const verifDir = "/verif"
+// verifDir is where the framework lives. VERIF_DIR exists so that long experiments
+// (regressions, strategy comparisons, background sweeps) can run from a snapshot
+// of /verif while /verif itself is being edited; the registered checks never set it.
+var verifDir = envOr("VERIF_DIR", "/verif")
 
 // repoDir is the tree under test. VERIF_REPO_DIR and VERIF_OUT_DIR exist only so
 // that the sensitivity regression (tools/seeded_regress.py) can run the checks
